@@ -1,11 +1,21 @@
 """C06 — broadcasting follows NumPy's rules and is symmetric, associative, idempotent.
 IMPL: index::broadcast_shape (2-ary and variadic), index::shape_broadcast_to / origin_axes / free_axes,
-index::broadcast_to, view::broadcast_to, view::broadcast_arrays.  ORACLE: numpy.broadcast_shapes / broadcast_to /
-broadcast_arrays (independent of the C++)."""
-import itertools
+index::broadcast_to, view::broadcast_to, view::broadcast_arrays, view::add.  ORACLE: numpy.broadcast_shapes /
+broadcast_to / broadcast_arrays (independent of the C++).
+
+Two harness families: harness/h_c06.cpp (run-time containers, exhaustive small scope over shapes) and the GENERATED
+mixed-kind matrix (harness/gen_kinds_c06.py + harness/c06_kinds.hpp): every pair / triple of shape container kinds
+(compile-time constant, clipped, std::array, vector, static_vector, fixed-size / hybrid ndarray, None) over a fixed
+table of shape pairs / triples plus a VERIF_SEED part, each case evaluating the clauses of the property (every order
+and grouping, with itself, with the result) with the NMTOOLS_VERIF hook events switched on."""
+import itertools, os, sys, random
 import numpy as np
+import runner
 from runner import Case
 from shapes import shapes, prod, fmt, fmt_lists
+
+sys.path.insert(0, os.path.join(runner.ROOT, 'harness'))
+import gen_kinds_c06 as G
 
 ID = 'C06'
 LEVEL = 'proof'
@@ -15,8 +25,21 @@ RULE = ('exhaustive: all ordered pairs and all ordered triples (thorough: triple
         'index::broadcast_to and view::broadcast_to with every element of the result read; all pairs + sampled triples through '
         'view::broadcast_arrays with every element of every result read (provenance data: operand k holds 1000k + flat id); '
         'mixed shape container kinds std::vector / std::array / nmtools_static_vector; random compatible and perturbed '
-        'families up to rank 8; 4- and 5-operand folds; zero-extent shapes off-domain against the model only. '
-        'non-trivial = operands differ in rank or in some aligned extent')
+        'families up to rank 8; 4- and 5-operand folds; zero-extent shapes (ranks <= 2, extents 0..2, a few triples and '
+        'broadcast_arrays) off-domain against the model AND NumPy. '
+        'KIND MATRIX (generated TUs, hooks on): kinds {constant tuple, clipped tuple (bounds with slack), std::array, vector, '
+        'static_vector, 1-d fixed_ndarray, 1-d hybrid_ndarray, None} for shapes and {ndarray_t with constant / clipped / '
+        'std::array / vector / static_vector shape, raw / nested std::array / fixed_ndarray, hybrid_ndarray, int} for arrays; '
+        'a fixed table of 19 shape pairs, 11 triples, 11 (source,target) pairs, 10 array pairs, 4 array triples (stretching 1s in '
+        'every position, rank extension on either side, equal shapes, scalars, incompatible ones); broadcast_shape(a,b): EVERY '
+        'ordered kind pair x every table pair, clauses ab ba aa bb a(ab) (ab)b (ba)a (ab)(ba); broadcast_shape of three: every '
+        'ordered kind triple (343) x table triples (quick: a rotating sixth, thorough: all), clauses = the variadic call in all 6 '
+        'operand orders + both groupings of all 6 orders; shape_broadcast_to / view::broadcast_to: every (source kind, target '
+        'kind) x table (quick: half); broadcast_arrays and add: every ordered array-kind pair x table (quick: a fifth), both '
+        'operand orders, add(x,x); broadcast_arrays of three arrays over mixed kind triples; + per VERIF_SEED 24 / 10 / 8+8 / '
+        '6 / 6 / 2 random cases (x5 thorough) with random kinds. A hook event (clipped clamp, static_vector overflow) while '
+        'an ACCEPTED clause is computed is part of the answer and therefore a difference. '
+        'non-trivial = operands differ in rank, in some aligned extent, or in kind')
 EXHAUSTIVE = {'quick': True, 'thorough': True}
 ANCHORS = {
     'NmVerif.bcRev/broadcastShape2': 'index::impl::broadcast_shape (broadcast_shape.hpp:37-180)',
@@ -27,20 +50,93 @@ ANCHORS = {
     'NmVerif.gather/broadcastToIndex': 'index::gather, index::broadcast_to (broadcast_to.hpp:307-330)',
     'NmVerif.broadcastToView': 'view::broadcast_to / view::broadcast_to_t::indices',
     'NmVerif.broadcastArraysViews': 'view::broadcast_arrays',
+    'NmVerif.BExpr.eval (driver op kexpr)': 'nests of index::broadcast_shape calls incl. the is_maybe overloads (broadcast_shape.hpp:186-245) and '
+                                            'meta::resolve_optype<broadcast_shape_t> (broadcast_shape.hpp:307-510) under every operand kind',
+    'NmVerif.sbtNoneClipped (driver op ksbt)': 'index::impl::shape_broadcast_to(none_t, bshape) (broadcast_to.hpp:36-75) with a clipped target',
+    'driver ops kbto / kbarr / kadd': 'view::broadcast_to, view::broadcast_arrays (index::broadcast_size), view::add (index::shape_ufunc) over the array kinds of utility/cast.hpp',
 }
 MANIFEST = dict(
-    text='Proof: Lean theorems over all shapes of any rank with positive extents: broadcast_shape (2-ary loop and variadic fold) succeeds iff the shapes are NumPy-compatible and then is the per-axis maximum; commutativity, associativity (Option/bind), idempotence, absorption, scalar identity; n-ary fold invariant under any permutation and any split/grouping of the operand list; shape_broadcast_to succeeds iff NumPy allows it; the offset-over-origin-axes index map of broadcast_to equals the NumPy element rule and stays in bounds; broadcast_arrays never fails after a successful broadcast_shape. Tied to the C++ by an exhaustive small-scope differential run (all pairs/triples of shapes, every element) and cross-checked against NumPy on every run.',
-    note='Lean kernel + propext/Classical.choice/Quot.sound; model hand-written (reversed-list recursion for the right-aligned loops), fidelity rests on the correspondence run; compile-time (constant/clipped) shape kinds are C09/C11, only run-time containers std::vector/std::array/static_vector here; positive extents as in the property (zero extents compared with the model only).',
+    text='Proof: Lean theorems over all shapes of any rank with positive extents: broadcast_shape (2-ary loop and variadic fold) succeeds iff the shapes are NumPy-compatible and then is the per-axis maximum; commutativity, associativity (Option/bind), idempotence, absorption, scalar identity; n-ary fold invariant under any permutation and any split/grouping of the operand list; shape_broadcast_to succeeds iff NumPy allows it; the offset-over-origin-axes index map of broadcast_to equals the NumPy element rule and stays in bounds; broadcast_arrays never fails after a successful broadcast_shape; any nest of broadcast_shape calls (2-ary and variadic, maybe results passed on) depends only on WHICH operands occur in it, not on their order, grouping or multiplicity (bexpr_eval_congr); with zero extents allowed the implementation is NumPy unless an axis pairs 0 with 1 (known finding); for operands of ANY container kinds (constant, clipped with any slack, fixed, bounded, dynamic, None) the container meta::resolve_optype picks for the result of broadcast_shape is never too small — no clipped integer clamps, no bounded vector overflows — and a nest of calls has the kind-blind value, a call that does not compile being a refusal (keval_kind_independent, broadcast_container_fits). Tied to the C++ by an exhaustive small-scope differential run (all pairs/triples of shapes, every element) and by a generated kind matrix (every pair / triple of shape container kinds incl. compile-time constant, clipped, fixed, bounded, dynamic, None; all operand orders and groupings; broadcast_to, broadcast_arrays, add; hook events on), both cross-checked against NumPy on every run.',
+    note='Lean kernel + propext/Classical.choice/Quot.sound; model hand-written (reversed-list recursion for the right-aligned loops), fidelity rests on the correspondence run; the value theorems are kind-blind (List Nat for every container); that the container kind does not matter is a theorem for broadcast_shape and nests of it (keval_kind_independent over resolveBroadcast, the hand-written mirror of meta::resolve_optype<broadcast_shape_t>, compared with the real result containers by the value@container answers of the kind matrix) and is established by the kind matrix alone for the view-level metafunctions; two operands that are both compile-time constants and incompatible do not compile (refusal at compile time; such clauses are printed as nothing without being run); positive extents as in the property (zero extents: bounded scope against NumPy; 0 with 1 gives 0 since fix f45d8fe).',
     technique='Lean 4 induction proofs over List Nat shapes + differential correspondence (exhaustive small scope) + NumPy oracle')
 ASSUMPTIONS = ['extents are positive (the property\'s quantifier); with a zero extent the implementation\'s max differs from NumPy and is outside the claim',
                'size_t arithmetic does not wrap (products of the explored shapes are far below 2^32)',
-               'compile-time-constant and clipped shape kinds are covered by C09/C11, not here']
-PARTIAL = []
-KNOWN_PREDICATES = {}
+               'kind matrix: a clause whose two operands are BOTH compile-time-constant shapes and incompatible is refused by the compiler (BROADCAST_SHAPE_ERROR); it is printed as `nothing` by the generator and not executed',
+               'kind matrix: one STL build with g++ (-O0); the NMTOOLS_DISABLE_STL / clang builds of the kind machinery are C09',
+               'the None shape (shape of a number) is the empty shape; the free-axes entry None of shape_broadcast_to(None, .) means every axis is free']
+PARTIAL = ['independence of the container kind is PROVED for index::broadcast_shape and nests of it (keval_kind_independent, about NmVerif.resolveBroadcast, a model of meta::resolve_optype<broadcast_shape_t> that the kind matrix compares with the real result containers on every run); for the result containers of shape_broadcast_to, broadcast_size and shape_ufunc (view::broadcast_to / broadcast_arrays / add) there is no Lean model of the metafunctions: there the independence is validated by the kind matrix only (finite in kinds, sampled in shapes, hook events on)']
+
+# Both defects below are REPAIRED in /repo (fix commits f45d8fe, 28ac131): the switches are off, the classes are judged by NumPy
+# (and by the kind-blind model); setting a switch to 1 reproduces the unrepaired tree.  History: the model MIRRORED the two then-open known findings (known/C06.json) so that the defect class itself is under the
+# correspondence run.  When the repair is applied to /repo, set the switch to False (the class is then judged by NumPy
+# and, for the None source, by the kind-blind model) and close the known finding:
+#   fixes/C06-sbt-none-clipped-target.diff -> MIRROR_NONE_CLIPPED = False
+#   fixes/C06-broadcast-zero-extent.diff   -> MIRROR_ZERO_WITH_ONE = False  (bc1 = max stays the model of positive extents)
+# (the environment variables let the repaired tree be tried before the switch is committed)
+MIRROR_NONE_CLIPPED = os.environ.get('C06_MIRROR_NONE_CLIPPED', '0') == '1'     # repaired in /repo: fix 28ac131
+MIRROR_ZERO_WITH_ONE = os.environ.get('C06_MIRROR_ZERO_WITH_ONE', '0') == '1'    # repaired in /repo: fix f45d8fe
+
+
+def k_parse(req):
+    """fields of a generated mixed-kind request `k6 id=… op=… shapes=… kinds=a/b salt=n` (None for other requests)"""
+    p = req.split(' ')
+    if p[0] != 'k6':
+        return None
+    d = dict(x.split('=', 1) for x in p[1:] if '=' in x)
+    shapes_ = [[] if t == '[]' else [int(v) for v in t.split(',')] for t in d['shapes'].split(';')]
+    return G.KCase(d['op'], shapes_, d['kinds'].split('/'), salt=int(d['salt']))
+
+
+def kf_none_source_clipped_target(case):
+    """index::shape_broadcast_to(None, target) where `target` is a tuple of clipped integers and some extent is larger
+    than the bound of the LAST element: the result array takes the last element's clipped type for every position
+    (meta::tuple_to_array / common_type), so that extent is clamped.  Reached directly (op sbt, kinds none/cl), through
+    view::broadcast_to(number, clipped target) and through broadcast_arrays / add of a number with arrays whose
+    common shape is a clipped tuple (all other operands of constant / clipped shape, at least one clipped)."""
+    c = k_parse(case.req)
+    if c is None:
+        return False
+    if c.op in ('sbt', 'bto'):
+        if c.kinds[0] not in ('none', 'num') or c.kinds[1] != 'cl':
+            return False
+        b = k_bounds(c, 1)
+        return any(v > b[-1] for v in c.shapes[1])
+    if c.op in ('barr', 'barr3', 'add'):
+        others = [k for k in c.kinds if k != 'num']
+        if len(others) == len(c.kinds) or not set(others) <= {'cs', 'ls', 'fx'} or 'ls' not in others:
+            return False
+        r = np_bshape(c.shapes)
+        return r is not None and any(v > r[-1] for v in r)
+    return False
+
+
+def kf_zero_extent_with_one(case):
+    """broadcast_shape / broadcast_arrays of run-time shapes in which, on some axis (aligned at the trailing axis), one
+    operand has extent 0 and another has extent 1: the implementation takes the maximum (1), NumPy the extent that is
+    not 1 (0)"""
+    p = case.req.split(' ')
+    if p[0] not in ('bshape', 'barrays'):
+        return False
+    d = dict(x.split('=', 1) for x in p[1:] if '=' in x)
+    ss = [[] if t == '[]' else [int(v) for v in t.split(',')] for t in d['shapes'].split(';')]
+    for k in range(1, max(len(x) for x in ss) + 1):
+        col = [x[-k] for x in ss if k <= len(x)]
+        if 0 in col and 1 in col:
+            return True
+    return False
+
+
+KNOWN_PREDICATES = {'none_source_clipped_target': kf_none_source_clipped_target, 'zero_extent_with_one': kf_zero_extent_with_one}
 
 
 def harness_specs(tier):
-    return [dict(name=H, src='h_c06.cpp', flavour='fast')]
+    specs = [dict(name=H, src='h_c06.cpp', flavour='fast')]
+    for name, cases in kplan(tier)[1].items():
+        # the NMTOOLS_VERIF hooks are ON in every generated TU: a clamp (2) / capacity (1) event while an ACCEPTED clause is
+        # computed is printed into the answer (harness/c06_kinds.hpp) and therefore differs from the reference
+        # (-O0: the kind matrix is bound by the compile time of the template instantiations, not by its run time)
+        specs.append(dict(name=name, src=G.write_tu(name, cases), flavour='fast', extra=('-DPROTO_VERIF_EVENTS', '-O0')))
+    return specs
 
 
 # ---------------------------------------------------------------------------------------------- oracle (NumPy)
@@ -103,6 +199,266 @@ def o_free_axes(a, b):
     return 'ok ' + fmt([1 if (k < pad or b[k - pad] == 1) else 0 for k in range(len(a))])
 
 
+# ---------------------------------------------------------------------------------------------- mixed-kind matrix
+# Generated TUs (harness/gen_kinds_c06.py): every pair / triple of shape container kinds over a fixed table of shape
+# pairs / triples (seed-independent: the TUs stay cached) + a part drawn from VERIF_SEED (own TUs, named by the seed).
+
+# stretching 1s in every position, rank extension on either side, equal shapes, scalars, incompatible pairs
+K_PAIRS = [
+    ([3, 1], [3, 5]), ([1, 4], [6, 4]), ([2, 1, 3], [4, 1]), ([1], [5]), ([5], [1, 1]), ([2, 3], [2, 3]), ([1, 1], [1, 1]),
+    ([3], [2, 3]), ([2, 1], [1, 3]), ([1, 2, 1], [3, 1, 4]), ([2, 1, 1, 3], [5, 1]),
+    ([], [2, 3]), ([], [1]), ([], []),
+    ([2, 3], [3, 2]), ([3], [4]), ([2, 1, 3], [4, 2]), ([2, 3], [2, 1, 4]), ([1, 3], [2]),
+]
+K_TRIPLES = [
+    ([1, 4], [6, 4], [1]), ([2, 1, 3], [4, 1], [1]), ([3, 1], [1, 5], [2, 1, 1]), ([2, 3], [2, 3], [2, 3]),
+    ([1], [3, 1], [2, 1, 1]), ([4, 1], [4, 1], [1, 5]), ([], [3, 1], [1, 2]), ([2, 1], [1, 3], [4, 1, 1]),
+    ([2, 3], [3, 2], [1]), ([2, 1], [1, 3], [2, 4]), ([3, 1], [1], [4, 5]),
+]
+# arrays: rank >= 1 (a rank-0 operand is the int scalar)
+K_APAIRS = [
+    ([3, 1], [3, 5]), ([1, 4], [6, 4]), ([2, 1, 3], [4, 1]), ([3], [2, 3]), ([2, 3], [2, 3]), ([2, 1], [1, 3]),
+    ([1, 2, 1], [3, 1, 2]), ([], [2, 3]), ([2, 3], [3, 2]), ([2, 1, 3], [4, 2]),
+]
+K_ATRIPLES = [([1, 4], [3, 4], [1]), ([2, 1], [1, 3], [2, 1, 1]), ([], [3, 1], [1, 2]), ([2, 3], [3, 2], [1])]
+# (source, target) of broadcast_to
+K_BTO = [
+    ([3, 1], [3, 5]), ([1, 4], [6, 4]), ([3], [2, 3]), ([4, 1], [2, 4, 3]), ([2, 3], [2, 3]), ([1], [2, 2]), ([], [2, 3]),
+    ([2, 3], [3]), ([2, 3], [2, 4]), ([3, 1], [1, 5]), ([], [3, 2]),
+]
+# witnesses of the known findings (known/C06.json) are always part of the fixed table
+K_WITNESSES = [('sbt', ([], [3, 2]), ('none', 'cl'), 0), ('bto', ([], [3, 2]), ('num', 'cl'), 1),
+               ('barr3', ([], [3, 1], [1, 2]), ('num', 'cs', 'ls'), 2)]
+K_TU_SECONDS = 20.0          # compile budget of one generated TU (KCase.weight ~ seconds of g++ -O1)
+K_STRIDE = {'quick': dict(bs2=1, bs3=6, sbt=2, bto=2, barr=5, add=5, barr3=1),   # strides coprime with the 7 kinds
+            'thorough': dict(bs2=1, bs3=1, sbt=1, bto=1, barr=1, add=1, barr3=1)}
+
+
+def _ikinds(s):
+    return G.INDEX_KINDS if len(s) else G.INDEX_KINDS0
+
+
+def _akinds(s):
+    return G.ARRAY_KINDS if len(s) else G.ARRAY_KINDS0
+
+
+def _k_fixed(tier):
+    """the seed-independent cases: every kind pair / triple over the tables (quick: a rotating 1/stride of the products
+    that are expensive to compile, so that every kind combination still meets several table entries)"""
+    stride = K_STRIDE[tier]
+    out = [G.KCase(op, shapes_, kinds, salt=salt) for op, shapes_, kinds, salt in K_WITNESSES]
+
+    def take(op, items):
+        st = stride[op]
+        for n, (shapes_, kinds) in enumerate(items):
+            if n % st == (len(op) % st):
+                out.append(G.KCase(op, shapes_, kinds, salt=n % 3))
+
+    take('bs2', [((a, b), ks) for a, b in K_PAIRS for ks in itertools.product(_ikinds(a), _ikinds(b))])
+    take('bs3', [(t, ks) for t in K_TRIPLES for ks in itertools.product(*[_ikinds(x) for x in t])])
+    take('sbt', [((a, b), (ka, kb)) for a, b in K_BTO for ka in _ikinds(a) for kb in G.INDEX_KINDS])
+    take('bto', [((a, b), (ka, kb)) for a, b in K_BTO for ka in _akinds(a) for kb in G.DST_KINDS])
+    take('barr', [((a, b), ks) for a, b in K_APAIRS for ks in itertools.product(_akinds(a), _akinds(b))])
+    take('add', [((a, b), ks) for a, b in K_APAIRS for ks in itertools.product(_akinds(a), _akinds(b))])
+    # three arrays: the kind triples that mix a constant, a fixed-rank and a dynamic / bounded shape in every order
+    mix = [ks for ks in itertools.product(['cs', 'fs', 'ds', 'hs', 'ls', 'fx', 'hy'], repeat=3) if len(set(ks)) == 3]
+    rr = random.Random(606)
+    rr.shuffle(mix)
+    n3 = 4 if tier == 'quick' else 30
+    items = []
+    for j, t in enumerate(K_ATRIPLES):
+        for ks in mix[j * n3:(j + 1) * n3]:
+            items.append((t, tuple(k if len(x) else 'num' for k, x in zip(ks, t))))
+    take('barr3', items)
+    return out
+
+
+def _rand_family(rng, n, rmax=4):
+    r = rng.randint(1, rmax)
+    full = [rng.choice([1, 2, 2, 3, 4, 5]) for _ in range(r)]
+    while prod(full) > 60:
+        full[rng.randrange(len(full))] = 1
+    ops = []
+    for _ in range(n):
+        s = derive_operand(rng, full)
+        ops.append(s)
+    if rng.random() < 0.3:
+        k = rng.randrange(n)
+        if ops[k]:
+            j = rng.randrange(len(ops[k]))
+            ops[k][j] += rng.choice([1, 2])
+    rng.shuffle(ops)
+    return ops
+
+
+def _k_seeded(tier, seed):
+    rng = random.Random(seed * 7919 + 606)
+    mul = 1 if tier == 'quick' else 5
+    out = []
+    for _ in range(24 * mul):
+        a, b = _rand_family(rng, 2)
+        out.append(G.KCase('bs2', (a, b), (rng.choice(_ikinds(a)), rng.choice(_ikinds(b))), salt=rng.randrange(3), seeded=True))
+    for _ in range(10 * mul):
+        t = _rand_family(rng, 3)
+        out.append(G.KCase('bs3', t, [rng.choice(_ikinds(x)) for x in t], salt=rng.randrange(3), seeded=True))
+
+    def arr_family(n):
+        while True:
+            t = _rand_family(rng, n, rmax=3)
+            if sum(1 for x in t if not x) <= 1 and (n > 2 or any(t)) and any(len(x) for x in t):
+                return t
+    for _ in range(8 * mul):
+        a, b = arr_family(2)
+        if rng.random() < 0.7 and np_bshape([a, b]) is not None:
+            b = np_bshape([a, b])
+        if not b:
+            b = [2]
+        out.append(G.KCase('bto', (a, b), (rng.choice(_akinds(a)), rng.choice(G.DST_KINDS)), salt=rng.randrange(3), seeded=True))
+        out.append(G.KCase('sbt', (a, b), (rng.choice(_ikinds(a)), rng.choice(G.INDEX_KINDS)), salt=rng.randrange(3), seeded=True))
+    for op, cnt in (('barr', 6), ('add', 6)):
+        for _ in range(cnt * mul):
+            a, b = arr_family(2)
+            out.append(G.KCase(op, (a, b), (rng.choice(_akinds(a)), rng.choice(_akinds(b))), salt=rng.randrange(3), seeded=True))
+    for _ in range(2 * mul):
+        t = arr_family(3)
+        out.append(G.KCase('barr3', t, [rng.choice(_akinds(x)) for x in t], salt=rng.randrange(3), seeded=True))
+    return out
+
+
+_kplan_cache = {}
+
+
+def kplan(tier):
+    """([KCase], {TU name: [KCase]}) for this tier and VERIF_SEED"""
+    seed = int(os.environ.get('VERIF_SEED', '0'))
+    if (tier, seed) in _kplan_cache:
+        return _kplan_cache[(tier, seed)]
+    tus = {}
+
+    def chunk(cases, prefix):
+        # index-level and array-level cases in separate TUs (different headers); greedy by compile weight
+        for lvl, sel in (('i', [c for c in cases if c.op in ('bs2', 'bs3', 'sbt')]), ('v', [c for c in cases if c.op not in ('bs2', 'bs3', 'sbt')])):
+            cur, w, n = [], 0.0, 0
+            for c in sel + [None]:
+                if c is None or (cur and w + c.weight() > K_TU_SECONDS):
+                    if cur:
+                        tus['%s%s%02d' % (prefix, lvl, n)] = cur
+                        n += 1
+                    cur, w = [], 0.0
+                if c is not None:
+                    cur.append(c); w += c.weight()
+    fixed = _k_fixed(tier)
+    seeded = _k_seeded(tier, seed)
+    seen = set(); uniq = []
+    for c in fixed + seeded:
+        if c.key not in seen:
+            seen.add(c.key); uniq.append(c)
+    chunk([c for c in uniq if not c.seeded], 'k6_%s_' % tier[0])
+    chunk([c for c in uniq if c.seeded], 'k6_%s_seed%d_' % (tier[0], seed))
+    _kplan_cache[(tier, seed)] = (uniq, tus)
+    return _kplan_cache[(tier, seed)]
+
+
+def np_bshape(ss):
+    try:
+        return list(np.broadcast_shapes(*[tuple(s) for s in ss]))
+    except ValueError:
+        return None
+
+
+def _k_eval(e, shapes_):
+    """NumPy value of a clause expression (None = refused)"""
+    if isinstance(e, int):
+        return list(shapes_[e])
+    xs = [_k_eval(x, shapes_) for x in e[1:]]
+    if any(x is None for x in xs):
+        return None
+    return np_bshape(xs)
+
+
+def _k_arr(a):
+    return 'shape=%s;data=%s' % (fmt(a.shape), fmt(a.ravel()))
+
+
+def _k_operand(s, j):
+    return np.arange(prod(s)).reshape(tuple(s)) + 1000 * j
+
+
+def k_oracle(c):
+    parts = []
+    for n, what, payload in c.clauses():
+        if what == 'shape':
+            v = _k_eval(payload, c.shapes)
+            t = 'nothing' if v is None else fmt(v)
+        elif what == 'sbt':
+            src, dst = c.shapes
+            pad = len(dst) - len(src)
+            t = '%s/%s' % (fmt(dst), fmt([1 if (k < pad or src[k - pad] != dst[k]) else 0 for k in range(len(dst))])) if can_bto(src, dst) else 'nothing'
+        elif what == 'bto':
+            src, dst = c.shapes
+            t = _k_arr(np.broadcast_to(_k_operand(src, 0), tuple(dst))) if can_bto(src, dst) else 'nothing'
+        else:
+            ops = [_k_operand(c.shapes[j], j) for j in payload]
+            try:
+                outs = np.broadcast_arrays(*ops)
+                t = '|'.join(_k_arr(o) for o in outs) if what == 'barr' else _k_arr(sum(outs[1:], outs[0]))
+            except ValueError:
+                t = 'nothing'
+        parts.append(' %s=%s' % (n, t))
+    return 'ok' + ''.join(parts)
+
+
+def k_bounds(c, j):
+    """bounds of the clipped tuple that operand j (an index-level shape or the target of bto) was declared with"""
+    salt = c.salt + (2 * j if c.op in ('bs2', 'bs3', 'sbt') else 1)
+    return [G.cl_bound(v, salt, i) for i, v in enumerate(c.shapes[j])]
+
+
+def k_mreq(c):
+    """the request the (kind-blind) Lean model answers"""
+    cl = c.clauses()
+    if c.op in ('bs2', 'bs3'):
+        return 'kexpr shapes=%s terms=%s' % (fmt_lists(c.shapes), ','.join('%s:%s' % (n, G.prefix(e)) for n, _, e in cl))
+    if c.op == 'sbt':
+        # the model mirrors the clamping of the None overload for a clipped target (known finding): it is told the kinds
+        if not MIRROR_NONE_CLIPPED:
+            return 'ksbt src=%s dst=%s' % (fmt(c.shapes[0]), fmt(c.shapes[1]))
+        return 'ksbt src=%s dst=%s ksrc=%s kdst=%s bounds=%s' % (fmt(c.shapes[0]), fmt(c.shapes[1]), c.kinds[0], c.kinds[1],
+                                                                fmt(k_bounds(c, 1)) if c.kinds[1] == 'cl' else 'None')
+    if c.op == 'bto':
+        return 'kbto src=%s dst=%s' % (fmt(c.shapes[0]), fmt(c.shapes[1]))
+    return '%s shapes=%s orders=%s names=%s' % ('kadd' if c.op == 'add' else 'kbarr', fmt_lists(c.shapes),
+                                               ';'.join(fmt(p) for _, _, p in cl), ','.join(n for n, _, _ in cl))
+
+
+def k_mreq_kinded(c):
+    cl = c.clauses()
+    bounds = ';'.join(fmt(k_bounds(c, j)) if k == 'cl' else '[]' for j, k in enumerate(c.kinds))
+    return 'kexprk shapes=%s terms=%s kinds=%s bounds=%s' % (fmt_lists(c.shapes), ','.join('%s:%s' % (n, G.prefix(e)) for n, _, e in cl),
+                                                            ','.join(c.kinds), bounds)
+
+
+def kgen(tier):
+    cases, tus = kplan(tier)
+    for name, cs in tus.items():
+        for c in cs:
+            o = k_oracle(c)
+            ranks = '/'.join(str(len(s)) for s in c.shapes)
+            tags = ['kinds', 'k:' + c.op, 'k:' + ('seeded' if c.seeded else 'table')] + ['kind=' + k for k in sorted(set(c.kinds))] + \
+                   ['k:ranks=' + ranks, 'k:refused' if '=nothing' in o else 'k:accepted']
+            case = Case('k6 id=%s %s' % (c.key, c.text()), name, oracle=o, mreq=k_mreq(c), nontrivial=nontriv([s for s in c.shapes]) or len(set(c.kinds)) > 1,
+                        tags=tags)
+            if MIRROR_NONE_CLIPPED and c.op == 'sbt' and kf_none_source_clipped_target(case):
+                case.dom = False       # known-defect region: the model (ksbt) mirrors the clamp, NumPy is the judge
+            yield case
+            if c.op in ('bs2', 'bs3'):
+                # the same clauses as `value@container`: IMPL against the Lean model of meta::resolve_optype<broadcast_shape_t>
+                # (NmVerif.resolveBroadcast / BExpr.keval).  No NumPy verdict here (the values are judged by the request above):
+                # a difference means the resolver model no longer mirrors the code.
+                yield Case('k6t id=%s %s' % (c.key, c.text()), name, dom=False, oracle=None, mreq=k_mreq_kinded(c), nontrivial=False,
+                           tags=['kinds', 'k:containers'])
+
+
 # ---------------------------------------------------------------------------------------------- generator
 
 def nontriv(ss):
@@ -131,6 +487,9 @@ def gen(tier, rng):
     R, E = (3, 3) if quick else (4, 4)
     S = list(shapes(R, E))
     kinds = ['vec', 'arr', 'sv']
+
+    # -- mixed container kinds incl. compile-time constant / clipped / fixed-size / hybrid (generated TUs)
+    yield from kgen(tier)
 
     # -- pairs: broadcast_shape both orders (comes for free: ordered pairs), shape_broadcast_to, elements
     for a in S:
@@ -231,11 +590,24 @@ def gen(tier, rng):
             if prod(res) <= 200:
                 yield Case('bto_ix src=%s dst=%s' % (fmt(src), fmt(res)), H, oracle=o_bto_ix(src, res), nontrivial=True, tags=['bto_ix'] + tg)
 
-    # -- off-domain: zero extents (property quantifies over positive extents): model mirrors the code, no oracle verdict
+    # -- off-domain: zero extents (the property quantifies over positive extents; NumPy is still the judge: a zero extent
+    #    paired with an extent 1 gives 1 instead of NumPy's 0 — known finding C06.broadcast-zero-extent-with-one — and
+    #    broadcast_arrays then unwraps Nothing).  Bounded: ranks <= 2, extents 0..2; the model mirrors the code.
+    def zcase(req, oracle, tags):
+        c = Case(req, H, dom=False, oracle=oracle, nontrivial=False, tags=tags + ['zero-extent'])
+        if not MIRROR_ZERO_WITH_ONE and kf_zero_extent_with_one(c):
+            c.model = False
+        return c
     Z = [s for s in shapes(2, 2, min_extent=0) if 0 in s]
     P = list(shapes(2, 2))
     for a in Z:
         for b in P + Z:
             for x, y in ((a, b), (b, a)):
-                yield Case('bshape shapes=%s' % fmt_lists([x, y]), H, dom=False, oracle=None, nontrivial=False, tags=['bshape', 'zero-extent'])
-                yield Case('sbt src=%s dst=%s' % (fmt(x), fmt(y)), H, dom=False, oracle=None, nontrivial=False, tags=['sbt', 'zero-extent'])
+                yield zcase('bshape shapes=%s' % fmt_lists([x, y]), o_bshape([x, y]), ['bshape'])
+                yield zcase('sbt src=%s dst=%s' % (fmt(x), fmt(y)), o_sbt(x, y), ['sbt'])
+    for t in ([[0], [1], [0]], [[1], [0], [1]], [[0], [1], [2]], [[2, 0], [1], [2, 1]], [[0, 1], [1, 0], [1, 1]], [[0], [], [0]]):
+        yield zcase('bshape shapes=%s' % fmt_lists(t), o_bshape(t), ['bshape'])
+    # broadcast_arrays over empty arrays (fine), and over the known class (the common shape keeps the 1, broadcast_to of the
+    # empty operand to it is Nothing and is unwrapped: assert / crash)
+    for t in ([[0], [0]], [[2, 0], [0]], [[1, 3], [0, 3]], [[0], [1]], [[1, 0], [0, 0]], [[2, 0], [2, 1]]):
+        yield zcase('barrays shapes=%s' % fmt_lists(t), o_barrays(t), ['barrays'])
